@@ -188,6 +188,25 @@ def gen(rnd, family):
 FAMILIES = ["big_chain", "big_diamond", "tee_uneven", "pkt", "u8_rate", "bits", "float"]
 
 
+def fixed_graphs():
+    """Graphs that are part of every run whatever the seed: each is the smallest
+    setting of a situation that the random families only meet by chance."""
+    gs = []
+    # an interpolating resampler whose output window ends in the middle of the copies of a sample
+    gs.append(({"family": "fix_resample", "stream_bytes": 3 * 4096, "nodes": [N("src_big", data=list(range(1, 8))), N("resample", [(1, 1)], interp=2, deci=1), N("sink", [(2, 1)])]}, 4))
+    gs.append(({"family": "fix_resample", "stream_bytes": 2 * 4096, "nodes": [N("src_big", data=list(range(1, 9))), N("resample", [(1, 1)], interp=3, deci=2), N("sink", [(2, 1)])]}, 4))
+    gs.append(({"family": "fix_resample", "stream_bytes": 4096, "nodes": [N("src_big", data=list(range(1, 8))), N("resample", [(1, 1)], interp=3, deci=1), N("sink", [(2, 1)])]}, 4))
+    # a block that waits for the rest of a batch (FftFilter: 5 samples per batch with 3 taps) while
+    # its writer delivers the last, batch-completing instalment and goes away: the interleaving
+    # that matters is rare under random schedules, hence the many seeds
+    gs.append(({"family": "fix_fft_batch", "stream_bytes": 4096, "nodes": [N("src_c", data=[1, 2, 3, -1, 2, 1, 3, -2, 1, 2], chunks=[3, 3, 4]), N("fftfiltc", [(1, 1)], taps=[1, 2, 3]), N("sink", [(2, 1)])]}, 240))
+    # fan-out with one reader that takes a sample at a time
+    gs.append(({"family": "fix_tee_uneven", "stream_bytes": 4 * 4096, "nodes": [N("src_big", data=list(range(1, 14))), N("tee", [(1, 1)]), N("sink", [(2, 1)]), N("slow", [(2, 2)], ms=0, max=1), N("sink", [(4, 1)])]}, 8))
+    for g, _ in gs:
+        g["order"] = list(range(1, len(g["nodes"]) + 1))
+    return gs
+
+
 def make(ctx, runners, per_family, seeds_per_graph=1, salt=0):
     rnd = random.Random(ctx.seed * 104729 + salt)
     out = []
@@ -213,6 +232,12 @@ def make(ctx, runners, per_family, seeds_per_graph=1, salt=0):
                         d["bg"] = True      # a second, never-ending graph runs in the process meanwhile
                         d["id"] += "+bg"
                     out.append(d)
+    frnd = random.Random(ctx.seed * 7919 + salt)
+    for gi, (g, nseeds) in enumerate(fixed_graphs()):
+        for runner in runners:
+            for r in range(nseeds if runner == "mtc" else 1):
+                k += 1
+                out.append(dict(g, runner=runner, seed=frnd.randrange(1 << 30), id=f"{k}:{g['family']}{gi}/{runner}"))
     return out
 
 
